@@ -605,5 +605,56 @@ def r12_12(ctx):
         ctx.ok(construct, lo.loc(loop), valuations=n_val, paths=len(paths))
 
 
+def r12_13(ctx):
+    """R12.13 the trigger file lies inside the dependency directory for every option name: in _touch_dep_file() the text
+    derived from the name is never handed to os.path.join() as a later component when it can begin with the separator
+    (`_FOO`.lower().replace('_', os.sep) is '/foo': join() then drops the directory and the file is created in the file
+    system root, where no build rule looks for it and an unprivileged sync dies on it)."""
+    from . import c13
+    from .common import expand_locals
+    repo = ctx.repo
+    t = repo.func(f"{CORE}:_touch_dep_file")
+    ctx.analysed(t.qual)
+    construct = "_touch_dep_file/the directory is part of the path for every option name (no join() component can be absolute)"
+    ops = c13.truncating_opens(t.node)
+    if not ops:
+        ctx.bad(construct, "no truncating open", t.loc())
+        return
+    name_prm = [a.arg for a in t.node.args.args][1]
+    pe = ast.parse(expand_locals(t.node, ops[0][0].args[0]), mode="eval").body
+    seps = ("os.sep", "sep", "'/'", "os.path.sep")
+
+    def may_lead_sep(e):
+        # can the string `e` begin with the path separator, given that an option name can begin with `_`?
+        if isinstance(e, ast.BinOp) and isinstance(e.op, ast.Add):
+            if isinstance(e.left, ast.Constant) and isinstance(e.left.value, str) and e.left.value:
+                return e.left.value.startswith("/")
+            return may_lead_sep(e.left)
+        if isinstance(e, ast.JoinedStr) and e.values:
+            v = e.values[0]
+            if isinstance(v, ast.Constant):
+                return str(v.value).startswith("/")
+            return may_lead_sep(v.value) if isinstance(v, ast.FormattedValue) else False
+        if isinstance(e, ast.Call) and isinstance(e.func, ast.Attribute):
+            if e.func.attr == "replace" and len(e.args) == 2 and ast.unparse(e.args[1]).replace('"', "'") in seps:
+                c = e.args[0]
+                # the replaced character can be the first one of the name (only `_`, letters and digits occur in names)
+                return (isinstance(c, ast.Constant) and isinstance(c.value, str) and len(c.value) == 1 and (c.value == "_" or c.value.isalnum())
+                        and any(isinstance(x, ast.Name) and x.id == name_prm for x in ast.walk(e.func.value))) or may_lead_sep(e.func.value)
+            if e.func.attr in ("lower", "upper", "rstrip", "strip") and not (e.func.attr == "strip" and not e.args):
+                return may_lead_sep(e.func.value)
+            if e.func.attr in ("lstrip",):
+                return False
+        return False
+
+    joins = [x for x in ast.walk(pe) if isinstance(x, ast.Call) and ast.unparse(x.func) in ("os.path.join", "join")]
+    bad = [(j, a) for j in joins for a in j.args[1:] if not isinstance(a, ast.Starred) and may_lead_sep(a)]
+    if bad:
+        ctx.bad(construct, f"`{ast.unparse(bad[0][1])[:80]}` is a later component of `{ast.unparse(bad[0][0].func)}()` and begins with the separator for a "
+                "name like `_FOO`: the directory is dropped, the trigger file is `/foo.cdep`", t.loc(ops[0][0]))
+    else:
+        ctx.ok(construct, t.loc(ops[0][0]), joins=len(joins))
+
+
 def rules():
-    return [("R12.12", r12_12, 1), ("R12.11", r12_11, 2), ("R12.10", r12_10, 1), ("R12.9", r12_9, 1), ("R12.8", r12_8, 1), ("R12.7", r12_7, 2), ("R12.1", r12_1, 6), ("R12.2", r12_2, 2), ("R12.3", r12_3, 2), ("R12.4", r12_4, 6), ("R12.5", r12_5, 4), ("R12.6", r12_6, 4)]
+    return [("R12.13", r12_13, 1), ("R12.12", r12_12, 1), ("R12.11", r12_11, 2), ("R12.10", r12_10, 1), ("R12.9", r12_9, 1), ("R12.8", r12_8, 1), ("R12.7", r12_7, 2), ("R12.1", r12_1, 6), ("R12.2", r12_2, 2), ("R12.3", r12_3, 2), ("R12.4", r12_4, 6), ("R12.5", r12_5, 4), ("R12.6", r12_6, 4)]
